@@ -268,12 +268,36 @@ class PropertyDescriptor(Symbol):
             # copy first: the assigned value may be the monitored container itself
             # (obj.field = obj.field, obj.field += [...]), and keep the order and repetitions of lists
             new_values = make_list(value)
+            # what was inferred into the field stays derivable from the relations it was inferred from
+            inferred_values = [
+                v
+                for v in self._inferred_values_of(obj)
+                if not any(v is new_value for new_value in new_values)
+            ]
             attr._clear()
             for v in new_values:
                 attr._add_item(v, inferred=False)
+            for v in inferred_values:
+                attr._add_item(v, inferred=False, add_relation_to_the_graph=False)
         else:
             setattr(obj, self.private_attr_name, value)
             self.add_relation_to_the_graph(obj, value)
+
+    def _inferred_values_of(self, obj: Symbol) -> List[Symbol]:
+        """
+        :param obj: The owner instance.
+        :return: The values the symbol graph holds as inferred for the managed attribute of the owner instance.
+        """
+        symbol_graph = SymbolGraph()
+        wrapped_instance = symbol_graph.get_wrapped_instance(obj)
+        if wrapped_instance is None:
+            return []
+        return [
+            relation.target.instance
+            for relation in symbol_graph.get_outgoing_relations(wrapped_instance)
+            if relation.inferred
+            and relation.wrapped_field.field is self.wrapped_field.field
+        ]
 
     def update_value(
         self,
